@@ -76,6 +76,8 @@ type Scenario struct {
 	Tasks    []TaskSpec         `json:"tasks,omitempty"`    // concurrent callers (C14)
 	Switches []Switch           `json:"switches,omitempty"` // baton schedule: at global step s run task t
 	Ops      []FileOp           `json:"ops,omitempty"`      // CLI scenarios (C19)
+	Files    map[string]string  `json:"files,omitempty"`    // workspace content before the run (C19)
+	Args     []string           `json:"args,omitempty"`
 	Extra    map[string]string  `json:"extra,omitempty"`
 }
 
